@@ -34,12 +34,12 @@ Step == \/ Ev.g = "drv" /\ Drive(Ev.op, Ev.a)
 \* acknowledged, in order -- so the pairing shown on messages holds on the devices
 LedgerCmds == {"stage", "unstage", "set", "monitor", "unmonitor", "kickoff", "complete", "collect",
                "install_suspender", "remove_suspender"}
-RECURSIVE Acked(_, _)
-Acked(h, k) ==
-    IF k >= Len(h) THEN <<>>
-    ELSE (IF h[k].g = "out" /\ h[k].r = "yield" /\ h[k].v.m \in LedgerCmds /\ h[k + 1].g = "drv" /\ h[k + 1].op = "send"
-          THEN <<h[k].v>> ELSE <<>>) \o Acked(h, k + 1)
-LedgerMatches == Traces[tid].led => Traces[tid].ledger = Acked(Traces[tid].h, 1)
+IsAcked(h, k) == /\ h[k].g = "out" /\ h[k].r = "yield" /\ h[k].v.m \in LedgerCmds
+                 /\ h[k + 1].g = "drv" /\ h[k + 1].op = "send"
+Acked(h) == IF Len(h) < 2 THEN <<>>
+            ELSE LET ks == SelectSeq([k \in 1..(Len(h) - 1) |-> k], LAMBDA k : IsAcked(h, k))
+                 IN [j \in 1..Len(ks) |-> h[ks[j]].v]
+LedgerMatches == Traces[tid].led => Traces[tid].ledger = Acked(Traces[tid].h)
 
 TraceNext == /\ l <= Len(Traces[tid].h)
              /\ Step
